@@ -104,7 +104,13 @@ func (m *aolModel) topicsOf(owner []byte) []string {
 			out = append(out, t.Name)
 		}
 	}
-	sort.Strings(out)
+	// store order: keys are length-prefixed components, so shorter names come first, equal lengths in byte order
+	sort.Slice(out, func(i, j int) bool {
+		if len(out[i]) != len(out[j]) {
+			return len(out[i]) < len(out[j])
+		}
+		return out[i] < out[j]
+	})
 	return out
 }
 
@@ -159,22 +165,32 @@ type aolVariant struct {
 	Genesis  func(gs map[string][]byte) // unused hook
 	Inject   *aolInject                 // C13: genesis-injected odd owners
 	Case     bool                       // reduced alphabet over two topics of one owner whose names differ only in letter case
+	Names    []string                   // reduced alphabet over these topic names of owner A
 }
 
 func aolOps(acc aolAccounts, v aolVariant) []explore.Op {
 	A, B, W, X, F := acc.A, acc.B, acc.W, acc.X, acc.F
 	s := func(a ...*world.Account) []*world.Account { return a }
 	var ops []explore.Op
-	if v.Case {
-		// topic names are case-sensitive byte strings: "a" and "A" are two topics with separate writers, counters and records
-		for _, t := range []string{"a", "A"} {
+	if v.Case && len(v.Names) == 0 {
+		v.Names = []string{"a", "A"} // topic names are case-sensitive byte strings: two topics with separate writers, counters, records
+	}
+	if len(v.Names) > 0 {
+		// reduced alphabet over the given topic names of owner A: listed writer W, never-listed X
+		for _, t := range v.Names {
+			lbl := t
+			if len(t) > 8 {
+				lbl = fmt.Sprintf("%s..len%d", t[:2], len(t))
+			}
 			ops = append(ops,
-				txOp(fmt.Sprintf("CreateTopic(A,%s)", t), s(A), aoltypes.NewMsgCreateTopic(t, "desc-"+t, A.Bech)),
-				txOp(fmt.Sprintf("AddWriter(A,%s,W)", t), s(A), aoltypes.NewMsgAddWriter(t, "mon."+t, "", W.Bech, A.Bech)),
-				txOp(fmt.Sprintf("AddRecord(A,%s,by=W)", t), s(W), aoltypes.NewMsgAddRecordRequest(t, []byte("k-"+t), []byte("v-"+t), W.Bech, A.Bech, "")),
+				txOp(fmt.Sprintf("CreateTopic(A,%s)", lbl), s(A), aoltypes.NewMsgCreateTopic(t, "desc-"+lbl, A.Bech)),
+				txOp(fmt.Sprintf("AddWriter(A,%s,W)", lbl), s(A), aoltypes.NewMsgAddWriter(t, "mon."+lbl[:1], "", W.Bech, A.Bech)),
+				txOp(fmt.Sprintf("AddRecord(A,%s,by=W)", lbl), s(W), aoltypes.NewMsgAddRecordRequest(t, []byte("k-"+lbl), []byte("v-"+lbl), W.Bech, A.Bech, "")),
+				txOp(fmt.Sprintf("AddRecord(A,%s,by=X)", lbl), s(X), aoltypes.NewMsgAddRecordRequest(t, []byte("kx-"+lbl), []byte("vx-"+lbl), X.Bech, A.Bech, "")),
 			)
 		}
-		ops = append(ops, txOp("DeleteWriter(A,A,W)", s(A), aoltypes.NewMsgDeleteWriter("A", W.Bech, A.Bech)))
+		last := v.Names[len(v.Names)-1]
+		ops = append(ops, txOp("DeleteWriter(A,<last>,W)", s(A), aoltypes.NewMsgDeleteWriter(last, W.Bech, A.Bech)))
 		return append(ops, ctlOps(v.Ctl...)...)
 	}
 	type ot struct {
@@ -803,7 +819,12 @@ func sortByRaw(bech []string) []string {
 		a, _ := sdk.AccAddressFromBech32(b)
 		ps = append(ps, p{string(a), b})
 	}
-	sort.Slice(ps, func(i, j int) bool { return ps[i].raw < ps[j].raw })
+	sort.Slice(ps, func(i, j int) bool { // store order: length-prefixed components
+		if len(ps[i].raw) != len(ps[j].raw) {
+			return len(ps[i].raw) < len(ps[j].raw)
+		}
+		return ps[i].raw < ps[j].raw
+	})
 	out := make([]string, len(ps))
 	for i := range ps {
 		out[i] = ps[i].bech
@@ -1030,6 +1051,10 @@ func C02(t Tier) int {
 	cs := aolSystem(aolVariant{ID: "C02/case", OwnACL: true, OwnCount: true, Case: true, Ctl: []string{"NB"}})
 	cdl := deadline(t, 45*time.Second, 4*time.Minute)
 	RunGraph(run, cs, []explore.Bounds{{Depth: 5, V: 1, Deadline: cdl}, {Depth: 6, V: 1, Deadline: cdl}}, 4)
+	// third system: topic names at the length limit (69 and 70 bytes): the longest store keys the module ever builds
+	ls := aolSystem(aolVariant{ID: "C02/long-names", OwnACL: true, OwnCount: true, Names: []string{strings.Repeat("x", 69), strings.Repeat("Z", 70)}, Ctl: []string{"NB"}})
+	ldl := deadline(t, 30*time.Second, 3*time.Minute)
+	RunGraph(run, ls, []explore.Bounds{{Depth: 4, V: 1, Deadline: ldl}, {Depth: 5, V: 1, Deadline: ldl}}, 4)
 	run.Assumptions = []string{
 		"accounts are plain secp256k1 key accounts; x/group policy accounts and governance-executed messages are outside the alphabet",
 		"delegation = x/authz GenericAuthorization without expiry",
